@@ -6,6 +6,8 @@ pub mod put_or_update;
 pub mod stats;
 pub mod clock;
 pub mod store;
+#[cfg(cached_verif)]
+pub mod verif;
 
 #[cfg(feature = "bench_testable")]
 pub mod proxy;
